@@ -978,6 +978,7 @@ Proof.
   - inversion H; reflexivity.
   - destruct (prio T); inversion H; reflexivity.
   - inversion H; reflexivity.
+  - inversion H; reflexivity.
 Qed.
 
 Lemma ch_sort_effect s o k reverse s' :
@@ -993,7 +994,7 @@ Proof.
   intros H l kf.
   assert (X : exists kl, keys_of k (hp s) l = Ok kl /\
                 s' = set_kids s o (map snd (stable_sort (sort_le reverse) kl))).
-  { unfold ch_sort in H. fold l in H.
+  { unfold ch_sort in H. destruct (none_clash s o k); [discriminate H|]. fold l in H.
     destruct k; try discriminate H;
       (destruct (keys_of _ (hp s) l) as [kl| |c]; try discriminate H;
        exists kl; split; [reflexivity|]; inversion H; destruct reverse; reflexivity). }
